@@ -38,6 +38,27 @@ def connected(f, a, b):
     return b.block.idx in ra or a.block.idx in rb
 
 
+def _count_positive(f, pv, first_load, at):
+    """facts at `at` say that the count of the list `first_load` was read from is >= 1"""
+    root = strip_bitcasts(f, resolve_addr(f, first_load.o[0]).root)
+    for (op, x, y) in pv.facts_at(at):
+        for val, other, kind in ((x, y, 'l'), (y, x, 'r')):
+            vi = f.get(val) if isinstance(val, str) else None
+            while vi is not None and vi.op in ('zext', 'trunc'):
+                vi = f.get(vi.o[0]) if isinstance(vi.o[0], str) else None
+            if vi is None or vi.op != 'load':
+                continue
+            a = resolve_addr(f, vi.o[0])
+            if a.fsteps[-1:] != ((SL, 'count'),) or strip_bitcasts(f, a.root) != root:
+                continue
+            c = const_int(other)
+            if c is None:
+                continue
+            if (op == 'ne' and c == 0) or (op == 'ult' and kind == 'r') or (op == 'ule' and kind == 'r' and c >= 1):
+                return True          # count != 0;  c < count;  c <= count with c >= 1
+    return False
+
+
 def run(m, rep, tier):
     from .. import canaries
     canaries.run(m, rep, ('handoff',))
@@ -100,6 +121,8 @@ def run(m, rep, tier):
                 why = 'a tail pointer (never NULL by this very rule)'
             elif pv.prove_at(('ne', v, 'null'), s):
                 why = 'proven non-NULL'
+            elif vi is not None and vi.op == 'load' and [x[1] for x in resolve_addr(f, vi.o[0]).fsteps] == ['h', 'n'] and _count_positive(f, pv, vi, s):
+                why = 'the first node of a list whose count is known to be non-zero (count > 0 <=> a first node exists, N5)'
             else:
                 # dereferenced on every path before
                 for i in f.all_insts():
@@ -130,6 +153,7 @@ def run(m, rep, tier):
             root = '$%d' % k
             site = 'cstl_slist_swap(%s)' % (f.args[k].get('name') or root)
             ok = False
+            counts = listrules.current_values(f, root, ('count',), copies)
             for s in tail_stores(f):
                 a = resolve_addr(f, s.o[1])
                 if a.root != root:
@@ -141,10 +165,8 @@ def run(m, rep, tier):
                     continue
                 for (op, x, y) in pv.facts_at(s):
                     xi = f.get(x)
-                    if op == 'eq' and const_int(y) == 0 and xi is not None and xi.op == 'load':
-                        ax = resolve_addr(f, xi.o[0])
-                        if ax.root == root and ax.fsteps[-1:] == ((SL, 'count'),) and all(f.dominates(c, xi) for c in copies):
-                            ok = True
+                    if op == 'eq' and const_int(y) == 0 and x in counts:
+                        ok = True
             if ok:
                 n3.ok(site, 't := &h under count == 0 (read after the swap)', floc(m, f))
             else:
